@@ -408,7 +408,9 @@ pub fn process_line(v: &Value, rep: &mut Report) {
     if steps.len() >= 2 && v["data"].as_array().unwrap().len() >= 2 {
         rep.nontrivial.insert(hs);
     }
-    rep.sample(json!({"steps": v["steps"], "meaning_add_loop": v["data"]}));
+    if rep.nontrivial.contains(&hs) {
+        rep.sample(json!({"steps": v["steps"], "meaning_add_loop": v["data"]}));
+    }
     for e in embeddings(&["E0", "E5"]) {
         let r = std::panic::catch_unwind(std::panic::AssertUnwindSafe(|| {
             let rep = &mut *rep;
